@@ -20,6 +20,9 @@ pub(crate) use worker::{Cluster, ClusterNeatDebug, use_keyspace_result};
 
 mod state;
 pub use state::ClusterState;
+#[cfg(scylla_verif)]
+#[doc(hidden)]
+pub use state::verif_hooks as verif_state_hooks;
 #[cfg(test)]
 pub(crate) use state::NodeConfig;
 
